@@ -198,7 +198,7 @@ def history(seed: int, nsteps: int = 10, sources=None) -> list:
     tmp = Path(tempfile.mkdtemp(prefix="verif_pkg_"))
     events: list = []
     try:
-        sources = sources or (list(TEMPLATES) + [str(p) for p in sample_files()])
+        sources = sources or (["generated"] * 5 + list(TEMPLATES) + [str(p) for p in sample_files()])
         src = rng.choice(sources)
         how = "template"
         if src == "generated":
@@ -452,8 +452,63 @@ def flat_ok(path: Path, doc) -> bool:
     return tags(body_flat) == tags(body_mem)
 
 
+def lazy_clone_history(seed: int) -> list:
+    """C10, lazily loaded parts: a document opened from a zip PATH (parts are
+    read on demand), some parts read, N files added in memory, then cloned;
+    the clone must hold every part (also the never-read ones) and be savable."""
+    from odfdo import Document
+
+    rng = random.Random(seed)
+    ids = Ids()
+    tmp = Path(tempfile.mkdtemp(prefix="verif_lazy_"))
+    events: list = []
+    try:
+        if rng.random() < 0.4:
+            src = rng.choice(TEMPLATES)
+            p = tmp / "tpl.od"
+            Document(src).save(p)
+        else:
+            src = str(rng.choice(sample_files()))
+            p = tmp / ("src" + Path(src).suffix)
+            shutil.copy(src, p)
+        doc = Document(p)
+        parts, _ = read_zip(p)
+        mem, mpaths, _f, _ok = project_package(parts, ids)
+        events.append({"op": "open", "src": Path(src).name, "how": "path", "mem": mem, "mf": mpaths})
+        known = set(mem)
+        for name in rng.sample(sorted(known), rng.randint(0, 3)):
+            doc_view(doc, [name], ids)  # read (and so load) a few parts only
+        for j in range(rng.choice([0, 1, 3, 8, 14, 16, 20, 30])):
+            c = f"lazy {seed} {j}".encode()
+            uri = doc.add_file(io.BytesIO(c))
+            events.append({"op": "add_file", "part": uri, "new": part_ids(uri, c, ids)})
+            known.add(uri)
+        ev = {"op": "clone"}
+        try:
+            clone = doc.clone
+            ev["view"] = doc_view(clone, sorted(known), ids)
+            ev["mf_view"] = [str(x) for x in clone.manifest.get_paths()]
+            events.append(ev)
+            ev = {"op": "save_twin"}
+            target = io.BytesIO()
+            clone.save(target)
+            zparts, _z = read_zip(target)
+            saved, smf, smf_files, _ok = project_package(zparts, ids)
+            ev.update(saved=saved, smf=smf, smf_files=smf_files)
+            events.append(ev)
+        except Exception as ex:  # noqa: BLE001
+            ev["exc"] = type(ex).__name__
+            ev["exc_detail"] = str(ex)[:200]
+            events.append(ev)
+    finally:
+        shutil.rmtree(tmp, ignore_errors=True)
+    return events
+
+
 def _gen(args):
     seed, n, sources = args
+    if sources == "lazy-clone":
+        return lazy_clone_history(seed)
     return history(seed, n, sources)
 
 
